@@ -276,7 +276,7 @@ class Gir:
                 items.append(self.stmt(s, ctx))
             if e.get('expr') is not None:
                 items.append(self.stmt(e['expr'], ctx))
-            items = [i for i in items if i['op'] != 'empty']
+            items = [i for i in items if i['op'] != 'empty' and not i.get('absorbed')]
             if not items:
                 return T('empty')
             if len(items) == 1:
@@ -299,11 +299,29 @@ class Gir:
                 return self.stmt(sc, ctx)
             sc = peel(e['scrut'])
             # dispatch: match on a local bound to a parser output
+            if sc.get('k') == 'path' and sc.get('res') == 'Local' and ('@' + sc['path']) in ctx['env'] and 'core::result::Result<' in (sc.get('t') or ''):
+                # `let res = p.parse_next(input); match res { Err(Backtrack(_)) => { input.reset(..); q.parse_next(input) } res => res }`
+                # = ordered choice between p and the recovering arms
+                st = ctx['env']['@' + sc['path']]
+                alts = [dict(st)]
+                st['absorbed'] = True
+                for a in e['arms']:
+                    at = self.stmt(a['body'], ctx)
+                    if at['op'] != 'empty':
+                        alts.append(at)
+                return T('alt', items=alts, l=l, recovered=True)
             if sc.get('k') == 'path' and sc.get('res') == 'Local' and ('@' + sc['path']) in ctx['env']:
                 arms = []
                 for a in e['arms']:
                     arms.append({'pat': a['pat'], 'guard': a.get('guard'), 'p': self.stmt(a['body'], ctx), 'l': a.get('l')})
-                return T('dispatch', scrut=ctx['env']['@' + sc['path']], arms=arms, l=l, node=e, bound=True)
+                dn = T('dispatch', scrut=ctx['env']['@' + sc['path']], arms=arms, l=l, node=e, bound=True)
+                # remember on the scrutinee term (already emitted by the preceding `let`) which dispatch consumes its output
+                inner = dn['scrut']
+                while inner.get('op') in ('map', 'opt', 'peek'):
+                    inner = inner['p']
+                if inner.get('op') == 'tok':
+                    inner['dispatch_ref'] = dn
+                return dn
             st = self.stmt(e['scrut'], ctx)
             arms = []
             for a in e['arms']:
@@ -583,6 +601,15 @@ class Gir:
         if op == 'seq':
             s = frozenset()
             for x in t['items']:
+                if x.get('op') == 'tok' and x.get('kind') == 'any' and x.get('dispatch_ref') is not None and (x['min'], x['max']) == (1, 1):
+                    # a consumed byte that is dispatched on: the first byte is one whose arm can succeed
+                    acc = frozenset()
+                    for sset, arm in self.dispatch_rows(x['dispatch_ref']):
+                        can = self._nullable_t(arm['p'], nm) or bool(self._first_t(arm['p'], memo))
+                        if can:
+                            acc |= (sset if sset is not None else ALL)
+                    s |= acc
+                    break
                 s |= self._first_t(x, memo)
                 # a peek in front constrains but does not consume; keep scanning through nullable members
                 if not self._nullable_t(x, nm):
@@ -605,12 +632,229 @@ class Gir:
         if op == 'dispatch':
             s = frozenset() if t.get('bound') else self._first_t(t['scrut'], memo)
             if t.get('bound') or self._nullable_t(t['scrut'], nm):
-                for a in t['arms']:
-                    s |= self._first_t(a['p'], memo)
+                sc = t['scrut']
+                peeked = False
+                x = sc
+                while x.get('op') in ('map', 'opt', 'peek'):
+                    if x['op'] == 'peek':
+                        peeked = True
+                    x = x['p']
+                rows = self.dispatch_rows(t) if (peeked and x.get('op') == 'tok' and (x['min'], x['max']) == (1, 1)) else None
+                if rows is not None and all(r[0] is not None for r in rows):
+                    # dispatch on a peeked byte: an arm can only start with bytes of its own pattern
+                    for sset, a in rows:
+                        s |= (self._first_t(a['p'], memo) & sset)
+                else:
+                    for a in t['arms']:
+                        s |= self._first_t(a['p'], memo)
             return s
         if op in ('ref', 'call'):
             return memo.get(t['fn'], ALL) if t['fn'] in self.terms else ALL
         return ALL
+
+    def dispatch_rows(self, disp):
+        """[(byteset or None when the pattern is not a byte pattern, arm)] first-match"""
+        from .den import pat_set, Unanalysable as U
+        rest = set(range(256))
+        rows = []
+        for arm in disp['arms']:
+            pat = arm['pat']
+            if pat.get('k') == 'p_tuplestruct' and (pat.get('path') or '').endswith('Option::Some') and pat.get('pats'):
+                pat = pat['pats'][0]
+            try:
+                sset = pat_set(self.ev, pat, rest) if arm.get('guard') is None else None
+            except U:
+                sset = None
+            if sset is None:
+                rows.append((None, arm))
+            else:
+                rows.append((frozenset(sset), arm))
+                rest -= sset
+        return rows
+
+    # ------------------------------------------------------------------ k-prefix languages
+    def prefix_sets(self, k=2):
+        """{fn: frozenset of byte strings} — the prefixes (truncated to k bytes) of the texts each named parser can consume.
+        Over-approximate where the model ignores value filters (verify / try_map) and lookahead (peek / not); exact on
+        classes, literals, bounds, sequencing, choice and repetition."""
+        key = f'_prefix{k}'
+        if hasattr(self, key):
+            return getattr(self, key)
+        memo = {}
+        self._pk = k
+        self._pmemo = memo
+        for _ in range(12):
+            changed = False
+            for d, t in self.terms.items():
+                if t is None:
+                    continue
+                v = self._prefix_t(t, {}, (d, ()))
+                if memo.get((d, ())) != v:
+                    memo[(d, ())] = v
+                    changed = True
+            # instantiations discovered on the way
+            for kk in list(memo):
+                d, ga = kk
+                if ga and self.terms.get(d) is not None:
+                    v = self._prefix_t(self.terms[d], dict(ga), kk)
+                    if memo.get(kk) != v:
+                        memo[kk] = v
+                        changed = True
+            if not changed:
+                break
+        setattr(self, key, memo)
+        return memo
+
+    def _cat(self, A, B):
+        k = self._pk
+        out = set()
+        trunc = {}
+        for x in A:
+            if len(x) >= k:
+                out.add(x[:k])
+                continue
+            j = k - len(x)
+            if j not in trunc:
+                trunc[j] = {y[:j] for y in B}
+            for y in trunc[j]:
+                out.add(x + y)
+        return frozenset(out)
+
+    def _star(self, P, lo, hi):
+        k = self._pk
+        cur = frozenset([b''])
+        res = set()
+        n = 0
+        # strings of n repetitions, n = 0.. ; stop when nothing new (prefixes are bounded by k)
+        seen_levels = []
+        while True:
+            if n >= lo:
+                res |= cur
+            if hi != INF and n >= hi:
+                break
+            nxt = self._cat(cur, P)
+            n += 1
+            if nxt in seen_levels and n > lo:
+                res |= nxt
+                break
+            seen_levels.append(nxt)
+            cur = nxt
+            if n > lo + k + 2:
+                res |= cur
+                break
+        return frozenset(res)
+
+    def _prefix_t(self, t, env, self_key):
+        k = self._pk
+        op = t['op']
+        E = frozenset([b''])
+        if op == 'tok':
+            lo, hi = t['min'], t['max']
+            if isinstance(lo, tuple):
+                try:
+                    lo, hi = self.ev.range(t['rng'], env)
+                except Unanalysable:
+                    lo, hi = 0, INF
+            if t.get('exact') is not None:
+                try:
+                    lo = hi = self.ev.integer(t['exact'], env)
+                except Unanalysable:
+                    pass
+            one = frozenset(bytes([b]) for b in t['set'])
+            return self._star(one, lo, hi)
+        if op == 'lit':
+            return frozenset([bytes(t['bytes'])[:k]])
+        if op in ('eof', 'empty', 'peek', 'not'):
+            return E
+        if op == 'fail':
+            return frozenset()
+        if op == 'seq':
+            cur = E
+            items = t['items']
+            i = 0
+            while i < len(items):
+                x = items[i]
+                if x.get('op') == 'tok' and x.get('kind') == 'any' and x.get('dispatch_ref') is not None and (x['min'], x['max']) == (1, 1) \
+                        and i + 1 < len(items) and items[i + 1] is x['dispatch_ref']:
+                    acc = set()
+                    for sset, arm in self.dispatch_rows(x['dispatch_ref']):
+                        pa = self._prefix_t(arm['p'], env, self_key)
+                        heads = frozenset(bytes([b]) for b in (sset if sset is not None else ALL))
+                        acc |= self._cat(heads, pa)
+                    cur = self._cat(cur, frozenset(acc))
+                    i += 2
+                    continue
+                cur = self._cat(cur, self._prefix_t(x, env, self_key))
+                if not cur:
+                    return cur
+                i += 1
+            return cur
+        if op == 'alt':
+            s = frozenset()
+            for x in t['items']:
+                s |= self._prefix_t(x, env, self_key)
+            return s
+        if op == 'opt':
+            return E | self._prefix_t(t['p'], env, self_key)
+        if op == 'rep':
+            return self._star(self._prefix_t(t['p'], env, self_key), t['min'], t['max'])
+        if op == 'sep':
+            P = self._prefix_t(t['p'], env, self_key)
+            S = self._prefix_t(t['sep'], env, self_key)
+            more = self._star(self._cat(S, P), max(t['min'] - 1, 0), INF if t['max'] == INF else max(t['max'] - 1, 0))
+            r = self._cat(P, more)
+            if t['min'] == 0:
+                r |= E
+            return r
+        if op == 'map':
+            if t['kind'] == 'verify' and t['p'].get('op') == 'tok' and isinstance(t['p'].get('min'), tuple):
+                # take_while(0..=N, C).verify(|b| b.len() == N): exactly N
+                clo = peel(t.get('filt') or {})
+                if clo.get('k') == 'closure':
+                    for n in walk(clo['body']):
+                        if n.get('k') == 'binary' and n.get('op') == '==' and peel(n['a']).get('k') == 'mcall' and peel(n['a']).get('name') == 'len':
+                            inner = dict(t['p'])
+                            inner['exact'] = n['b']
+                            return self._prefix_t(inner, env, self_key)
+            return self._prefix_t(t['p'], env, self_key)
+        if op == 'checkrec':
+            return self._prefix_t(t['p'], env, self_key)
+        if op == 'and_then':
+            return self._prefix_t(t['p'], env, self_key)
+        if op == 'dispatch':
+            sc = t['scrut']
+            x = sc
+            peeked = False
+            while x.get('op') in ('map', 'opt', 'peek'):
+                if x['op'] == 'peek':
+                    peeked = True
+                x = x['p']
+            rows = self.dispatch_rows(t)
+            acc = set()
+            if peeked and x.get('op') == 'tok' and (x['min'], x['max']) == (1, 1) and all(r[0] is not None for r in rows):
+                for sset, arm in rows:
+                    pa = self._prefix_t(arm['p'], env, self_key)
+                    acc |= {y for y in pa if (y and y[0] in sset) or (not y and False)}
+                    # an arm that matches the empty string while a byte was peeked: the peeked byte belongs to what follows
+                    if b'' in pa:
+                        acc.add(b'')
+                return frozenset(acc)
+            for a in t['arms']:
+                acc |= self._prefix_t(a['p'], env, self_key)
+            if not t.get('bound'):
+                return self._cat(self._prefix_t(sc, env, self_key), frozenset(acc))
+            return frozenset(acc)
+        if op in ('ref', 'call'):
+            fn = t['fn']
+            if fn not in self.terms or self.terms[fn] is None:
+                return frozenset(bytes([b]) for b in ALL) | E  # unknown: anything
+            ga = tuple(sorted(self.generic_env(t).items())) if op == 'ref' else ()
+            kk = (fn, ga)
+            if kk not in self._pmemo:
+                self._pmemo[kk] = frozenset()
+            return self._pmemo[kk]
+        # param / top: anything
+        return self._star(frozenset(bytes([b]) for b in ALL), 0, INF)
 
     def mentions(self, t, through_checkrec=True):
         """named parsers referenced by a term; with through_checkrec=False the
